@@ -1,5 +1,6 @@
 import BU.Properties.C10
 import BU.Properties.C10_Gen
+import BU.Properties.C10_GenPub
 #print axioms C10.prefixes
 #print axioms C10.to_string_eq
 #print axioms C10.accept_sound
@@ -16,3 +17,9 @@ import BU.Properties.C10_Gen
 #print axioms C10Gen.genAccept_eq
 #print axioms C10Gen.gen_accept_sound
 #print axioms C10Gen.gen_roundtrip
+#print axioms C10GenPub.rmd_length
+#print axioms C10GenPub.gen_is_hash160_valid
+#print axioms C10GenPub.gen_is_hash160_valid_len
+#print axioms C10GenPub.gen_address_init_hash160
+#print axioms C10GenPub.gen_pubkey_get_address
+#print axioms C10GenPub.gen_pubkey_address_commits
